@@ -50,6 +50,12 @@ def call(api, aps, rows, unit, req2, req_unit, subset=None):
         c = make_conv(aps, rows, unit)
         q = (req * u.au).to(getattr(u, req_unit))
         try:
+            if (len(req2) + len(aps)) % 2:
+                # the same table object has already served another request (above, on and inside the table)
+                try:
+                    c.interpolate((np.array([aps[-1] * 3.0, aps[0], 0.5 * (aps[0] + aps[-1])]) * u.au).to(getattr(u, req_unit)))
+                except Exception:
+                    pass
             o = c.interpolate(q)
         except Exception as e:
             return ('refused', repr(e), None)
